@@ -243,6 +243,26 @@ pub fn handle(op: &str, a: &[&str]) -> Option<Resp> {
             }
         }
     }
+    // DEP-3 header: the typed author / description are what the lossless view of the same text
+    // shows (Author, else From; Description, else Subject) -- on well-formed input
+    if kind == "dep3" {
+        let blank_cont = t.split('\n').any(|l| (l.starts_with(' ') || l.starts_with('\t')) && l.trim().is_empty());
+        if let (Ok(v1), Ok(h)) = (&r1, dep3::lossless::PatchHeader::from_str(&t)) {
+            let field = |k: &str| v1.structs[0].1.iter().find(|(kk, _)| kk == k).map(|x| x.1.clone());
+            let ll_author = h.author();
+            let ll_desc = h.description().map(|d| match h.long_description() {
+                Some(l) if !l.is_empty() => format!("{}\n{}", d, l),
+                _ => d,
+            });
+            if fail.is_none() && !blank_cont {
+                if field("Author") != ll_author {
+                    fail = Some(format!("typed author {:?} differs from the lossless view {:?}", field("Author"), ll_author));
+                } else if field("Description") != ll_desc {
+                    fail = Some(format!("typed description {:?} differs from the lossless view {:?}", field("Description"), ll_desc));
+                }
+            }
+        }
+    }
     Some(Resp::with(format!("p1={} t1={} p2={} t2={} ll={}", p1, t1, p2, t2, ll), fail))
 }
 
@@ -478,6 +498,24 @@ pub fn generate_c20(tier: &str, seed: u64, out: &mut Out) {
                     emit(out, "From: A <a@e.org>\nSubject: s1\n s2\n".to_string());
                     emit(out, "From: A <a@e.org>\nAuthor: B\nSubject: s\nDescription: d\n".to_string());
                     emit(out, "Subject: only\n".to_string());
+                    // every combination of the four fields the fall-backs look at
+                    for m in 0..16u32 {
+                        let mut t = String::new();
+                        if m & 1 != 0 {
+                            t.push_str("From: F <f@e.org>\n");
+                        }
+                        if m & 2 != 0 {
+                            t.push_str("Author: A <a@e.org>\n");
+                        }
+                        if m & 4 != 0 {
+                            t.push_str("Subject: subj\n more subj\n");
+                        }
+                        if m & 8 != 0 {
+                            t.push_str("Description: desc\n more desc\n");
+                        }
+                        t.push_str("Forwarded: no\n");
+                        emit(out, t);
+                    }
                 }
                 if ks.kind == "package" {
                     emit(out, "Package: p\nVersion: 1.0\nArchitecture: all\nDescription-md5: 0123\n".to_string());
